@@ -46,6 +46,7 @@ type scenario struct {
 	// accessor-subject: subject = result of getter Acc on (element of) Param
 	Acc  *types.Var
 	Acc2 *types.Var // second getter for order scenarios on one element
+	Fields   bool   // subject parameter is the []string of '/'-separated fields of the offending ID
 	NonEmpty int    // 1 + index of a list parameter assumed non-empty (0 = none)
 	NonEmptyFn *ssa.Function // the list returned (result 0) by this function is non-empty on success
 }
@@ -105,7 +106,15 @@ func (e *scEngine) isFailureReturn(f *ssa.Function, r *ssa.Return) bool {
 		return fc(r)
 	}
 	if errResultIndex(f) < 0 {
-		// (error, bool)-style validators: bool false
+		// helpers reporting failure through a trailing bool: `return ..., false`
+		n := len(r.Results)
+		if n >= 1 {
+			if k, ok := resolve(r.Results[n-1]).(*ssa.Const); ok && k.Value != nil && k.Value.String() == "false" {
+				if b, isB := r.Results[n-1].Type().Underlying().(*types.Basic); isB && b.Kind() == types.Bool {
+					return true
+				}
+			}
+		}
 		return false
 	}
 	return classifyReturn(f, r) == retError
@@ -124,6 +133,9 @@ type simCtx struct {
 // subject matching ---------------------------------------------------------
 
 func (c *simCtx) isSubject(v ssa.Value) bool {
+	if c.sc.Fields {
+		return false
+	}
 	v = resolve(v)
 	if c.sc.Acc != nil {
 		call, ok := v.(*ssa.Call)
@@ -304,6 +316,9 @@ func flipOp(op token.Token) token.Token {
 
 // splitOfSubject: v == strings.Split(subject, "/")
 func (c *simCtx) splitOfSubject(v ssa.Value) bool {
+	if c.sc.Fields && !c.sc.Elem && c.sc.Param < len(c.f.Params) && resolve(v) == ssa.Value(c.f.Params[c.sc.Param]) {
+		return true
+	}
 	call, ok := resolve(v).(*ssa.Call)
 	if !ok || !calleeIs(call, "strings", "Split") {
 		return false
@@ -322,6 +337,9 @@ func (c *simCtx) textOfSubject(v ssa.Value) bool {
 		if ia, ok := ld.(*ssa.IndexAddr); ok {
 			return c.splitOfSubject(ia.X)
 		}
+	}
+	if ix, ok := v.(*ssa.Index); ok {
+		return c.splitOfSubject(ix.X)
 	}
 	return false
 }
@@ -347,6 +365,11 @@ func (c *simCtx) oracle(cond ssa.Value) (bool, bool) {
 	case *ssa.Extract:
 		if lk, ok := x.Tuple.(*ssa.Lookup); ok && x.Index == 1 {
 			return c.seenLookup(lk)
+		}
+		if call, ok := x.Tuple.(*ssa.Call); ok {
+			if b, isB := x.Type().Underlying().(*types.Basic); isB && b.Kind() == types.Bool {
+				return c.boolResultOf(call, x.Index)
+			}
 		}
 	case *ssa.Lookup:
 		if !x.CommaOk {
@@ -499,6 +522,19 @@ func (c *simCtx) oracleCmp(b *ssa.BinOp) (bool, bool) {
 			op = flipOp(op)
 		}
 		if lenv != nil {
+			if cc, ok := resolve(lenv).(*ssa.Call); ok && calleeIs(cc, "strings", "Count") && c.isSubject(cc.Call.Args[0]) {
+				if sep, ok := constString(cc.Call.Args[1]); ok && isSeparator(sep) {
+					k, _ := constInt(kv)
+					if k == c.sc.N-1 {
+						switch op {
+						case token.NEQ:
+							return true, true
+						case token.EQL:
+							return false, true
+						}
+					}
+				}
+			}
 			if lc, ok := resolve(lenv).(*ssa.Call); ok && builtinName(lc) == "len" && c.splitOfSubject(lc.Call.Args[0]) {
 				k, _ := constInt(kv)
 				if k == c.sc.N {
@@ -609,8 +645,16 @@ func (c *simCtx) errValueFails(ev ssa.Value) (bool, bool) {
 // mapScenario: translate the scenario to the callee's parameters.
 func (c *simCtx) mapScenario(call *ssa.Call, g *ssa.Function) (scenario, bool) {
 	out, ok := c.mapScenario0(call, g)
-	if ok && c.sc.NonEmpty > 0 {
-		out.NonEmpty = 0
+	if ok && c.sc.NonEmptyFn != nil {
+		for i, a := range call.Call.Args {
+			if ex, isEx := resolve(a).(*ssa.Extract); isEx && ex.Index == 0 {
+				if cc, isC := ex.Tuple.(*ssa.Call); isC && calleeOf(cc) == c.sc.NonEmptyFn {
+					out.NonEmpty = i + 1
+				}
+			}
+		}
+	}
+	if ok && c.sc.NonEmpty > 0 && out.NonEmpty == 0 {
 		for i, a := range call.Call.Args {
 			if c.sc.NonEmpty-1 < len(c.f.Params) && resolve(a) == ssa.Value(c.f.Params[c.sc.NonEmpty-1]) {
 				out.NonEmpty = i + 1
@@ -668,6 +712,10 @@ func (c *simCtx) mapScenario0(call *ssa.Call, g *ssa.Function) (scenario, bool) 
 				}
 			}
 			return out, true
+		case (sc.Kind == scParseFail || sc.Kind == scArity) && sc.Acc == nil && c.splitOfSubject(ra):
+			out := sc
+			out.Param, out.Elem, out.Fields = i, false, true
+			return out, true
 		default:
 			// one-element list literal containing the subject
 			if vals, ok := sliceLiteral(ra); ok && sc.Acc == nil {
@@ -721,19 +769,28 @@ func (c *simCtx) oracleCall(call *ssa.Call) (bool, bool) {
 	if b, ok := g.Signature.Results().At(0).Type().Underlying().(*types.Basic); !ok || b.Kind() != types.Bool || g.Signature.Results().Len() != 1 {
 		return false, false
 	}
+	return c.boolResultOf(call, 0)
+}
+
+// boolResultOf: value of the idx-th (bool) result of a module call under the
+// mapped scenario, if all reachable returns agree.
+func (c *simCtx) boolResultOf(call *ssa.Call, idx int) (bool, bool) {
+	g := calleeOf(call)
+	if g == nil || !c.e.w.InModule(g) || g.Blocks == nil || c.depth > 4 {
+		return false, false
+	}
 	sc2, ok := c.mapScenario(call, g)
 	if !ok {
 		return false, false
 	}
-	// evaluate the bool result of the validator under the mapped scenario
 	sub := &simCtx{e: c.e, f: g, sc: sc2, depth: c.depth + 1}
-	reach := simulate(g.Blocks[0], nil, sub.oracle)
+	reach := sub.explore(g.Blocks[0], nil)
 	var val, have bool
 	for _, r := range returnsOf(g) {
-		if !reach[r.Block()] {
+		if !reach[r.Block()] || idx >= len(r.Results) {
 			continue
 		}
-		v, ok := sub.oracle(r.Results[0])
+		v, ok := sub.oracle(r.Results[idx])
 		if !ok {
 			return false, false
 		}
@@ -819,6 +876,42 @@ func (c *simCtx) explore(start *ssa.BasicBlock, stop map[*ssa.BasicBlock]bool) m
 		for _, sr := range findSliceRanges(c.f) {
 			if c.splitOfSubject(sr.X) {
 				blocked[sr.Header] = sr.Done
+			}
+		}
+	}
+	if c.sc.Kind == scParseFail || c.sc.Kind == scArity {
+		for _, blk := range c.f.Blocks {
+			t, fl, ifi := ifSuccs(blk)
+			if ifi == nil {
+				continue
+			}
+			cmp, ok := ifi.Cond.(*ssa.BinOp)
+			if !ok || cmp.Op != token.LSS {
+				continue
+			}
+			phi, ok := cmp.X.(*ssa.Phi)
+			if !ok || phi.Block() != blk {
+				continue
+			}
+			init, hasInit := int64(0), false
+			for _, e := range phi.Edges {
+				if k, ok := constInt(e); ok {
+					init, hasInit = k, true
+				}
+			}
+			if !hasInit {
+				continue
+			}
+			enters := false
+			if k, ok := constInt(cmp.Y); ok && init < k {
+				enters = true
+			}
+			if lc, ok := resolve(cmp.Y).(*ssa.Call); ok && builtinName(lc) == "len" && c.splitOfSubject(lc.Call.Args[0]) && init == 0 {
+				enters = true
+			}
+			if enters {
+				_ = t
+				blocked[blk] = fl
 			}
 		}
 	}
